@@ -71,6 +71,10 @@ type World struct {
 	names map[string]string // bech32 -> symbolic
 	// donated[a] — coins sent unsolicited to the custody account by the harness' Donate action.
 	Donated map[string]math.Int
+	// C18 lock-step: a sibling branch of the state in which the module store was exported, wiped and re-imported; every
+	// later event is executed on both
+	mirror    *sdk.Context
+	mirrorDon map[string]math.Int
 }
 
 func dec(s string) math.LegacyDec { return math.LegacyMustNewDecFromStr(s) }
